@@ -61,7 +61,7 @@ def P_waited (o : Obs) : Prop := (o.res = .nil ∨ o.res = .exiterr) → o.death
 /-- … and the result says how the child ended. -/
 def P_result (o : Obs) : Prop := (o.res = .nil → o.death = .e0 ∨ o.death = .nr) ∧ (o.res = .exiterr → o.death ≠ .e0)
 /-- SIGTERM only after a full TerminateDuration since Close was called. -/
-def P_termGrace (o : Obs) : Prop := o.term ≠ .neg ∧ o.term ≠ .at 0
+def P_termGrace (o : Obs) : Prop := o.term ≠ .neg ∧ o.term ≠ .at 0 ∧ (o.death = .st → 1 ≤ o.eb)
 /-- SIGKILL only after two. -/
 def P_killGrace (o : Obs) : Prop := o.death = .sk → 2 ≤ o.eb
 /-- giving up ("unresponsive subprocess") only after three. -/
@@ -81,7 +81,7 @@ def monitor (c : Class) (o : Obs) : Option Clause :=
   else if o.leak = true then some .goroutineLeft
   else if (o.res = .nil ∨ o.res = .exiterr) ∧ o.death = .nr then some .notWaited
   else if (o.res = .nil ∧ o.death ≠ .e0) ∨ (o.res = .exiterr ∧ o.death = .e0) then some .resultWrong
-  else if o.term = .neg ∨ o.term = .at 0 then some .termEarly
+  else if o.term = .neg ∨ o.term = .at 0 ∨ (o.death = .st ∧ o.eb < 1) then some .termEarly
   else if o.death = .sk ∧ o.eb < 2 then some .killEarly
   else if o.res = .unresp ∧ o.eb < 3 then some .giveUpEarly
   else if c.term ≠ .dfl ∧ o.death = .sk ∧ o.term = .none then some .killWithoutTerm
